@@ -9,7 +9,7 @@
 //!      cut-point set around the frame boundaries, against a direct rendering (write the frame,
 //!      pull spf samples) that does not go through Player at all;
 //!  (3) decode: `Vtx::load` on files produced by the harness VTX writer (literal-only LH5 encoder,
-//!      validated by exhaustive round trip through delharc first) and on the four shipped files.
+//!      validated by exhaustive round trip through delharc first) and on the four shipped files, each also through readers that return at most 1/3/256 bytes per call (same result required).
 
 #[path = "../ay_common.rs"]
 mod ay_common;
@@ -964,6 +964,24 @@ fn decode_case(spec: &VtxSpec, block: usize, style: Lh5Style, verbose: bool) -> 
             return Err((format!("C20:decode:header:{}", name), format!("header field {} does not round-trip: loaded {:?}", name, v)));
         }
     }
+    // the same file through readers that return short reads must decode to the same thing
+    for chunk in [1usize, 3, 256] {
+        let rd = ShortReader { inner: std::io::Cursor::new(file.to_vec()), chunk };
+        match catch_unwind(AssertUnwindSafe(|| Vtx::load(rd))) {
+            Ok(Ok(v2)) => {
+                if v2.frame_data != v.frame_data || v2.title != v.title || v2.author != v.author || v2.from != v.from || v2.tracker != v.tracker || v2.comment != v.comment {
+                    return Err(("C20:decode:short-reads:differs".to_string(), format!("a well-formed file of {} frames read {} byte(s) at a time decodes differently from the same file read whole", spec.frames.len(), chunk)));
+                }
+            }
+            Ok(Err(e)) => {
+                return Err((
+                    "C20:decode:short-reads:load-error".to_string(),
+                    format!("a well-formed file of {} frames (strings {:?}) loads when read whole but is rejected when the reader returns at most {} byte(s) per call: {}", spec.frames.len(), spec.strings.iter().map(|x| x.len()).collect::<Vec<_>>(), chunk, e),
+                ))
+            }
+            Err(p) => return Err((format!("C20:decode:short-reads:panic:{}", panic_shape(&p)), format!("Vtx::load panicked reading a well-formed file {} byte(s) at a time", chunk))),
+        }
+    }
     let mut h = fnv(&v.frame_data);
     h = fnv_mix(h, spec.stereo as u64 | (spec.ym as u64) << 8);
     Ok(h)
@@ -1128,7 +1146,38 @@ fn sample_file_case(path: &str, verbose: bool) -> Result<u64, Fail> {
     if v.player_frequency != data[9] || v.frequency != u32::from_le_bytes([data[5], data[6], data[7], data[8]]) {
         return Err((format!("C20:decode:sample-file:header:{}", name), format!("{}: header numbers differ", name)));
     }
+    // the same bytes through a reader that returns short reads (legal for std::io::Read): the
+    // decoded register log must not depend on how the bytes arrive
+    for chunk in [1usize, 2, 3, 7, 255, 256, 257] {
+        let rd = ShortReader { inner: std::io::Cursor::new(data.clone()), chunk };
+        match catch_unwind(AssertUnwindSafe(|| Vtx::load(rd))) {
+            Ok(Ok(v2)) => {
+                if v2.frame_data != v.frame_data || v2.title != v.title || v2.comment != v.comment {
+                    return Err((format!("C20:decode:short-reads:differs:{}", name), format!("{} read {} byte(s) at a time decodes differently from the same file read whole", name, chunk)));
+                }
+            }
+            Ok(Err(e)) => return Err((format!("C20:decode:short-reads:load-error:{}", name), format!("{} loads when read whole but fails when the reader returns at most {} byte(s) per call: {}", name, chunk, e))),
+            Err(p) => return Err((format!("C20:decode:short-reads:panic:{}", panic_shape(&p)), format!("Vtx::load panicked on {} read {} byte(s) at a time", name, chunk))),
+        }
+    }
     Ok(fnv(&v.frame_data))
+}
+
+/// `Read + Seek` that never returns more than `chunk` bytes per call
+struct ShortReader {
+    inner: std::io::Cursor<Vec<u8>>,
+    chunk: usize,
+}
+impl std::io::Read for ShortReader {
+    fn read(&mut self, buf: &mut [u8]) -> std::io::Result<usize> {
+        let n = buf.len().min(self.chunk);
+        self.inner.read(&mut buf[..n])
+    }
+}
+impl std::io::Seek for ShortReader {
+    fn seek(&mut self, pos: std::io::SeekFrom) -> std::io::Result<u64> {
+        self.inner.seek(pos)
+    }
 }
 
 const SAMPLE_FILES: [&str; 4] = [
